@@ -1495,7 +1495,7 @@ func (r *EngineRunner) Exec(f []string) (res string) {
 		return r.listing()
 	case "hintcheck":
 		return r.hintCheck()
-	case "open2", "openchild", "openbad", "openrace", "openbg", "lockprobe", "closebg", "straylock":
+	case "open2", "openchild", "openbad", "openrace", "openbg", "lockprobe", "closebg", "straylock", "openopts":
 		return r.execLock(f)
 	case "concsched", "concpark", "concstress", "concmix", "concbg":
 		return r.execConc(f)
